@@ -434,6 +434,12 @@ func corpus() []podSpec {
 		out = append(out, mk(map[string]string{"gpu-fraction": "0.5", "gpu-fraction-num-devices": s}, true))
 		out = append(out, mk(map[string]string{"gpu-memory": "1024", "gpu-fraction-num-devices": s}, true))
 	}
+	// both sharing annotations at once (rejected by admission): the scheduler keeps the value ParseInt returned for
+	// gpu-memory, error or not (nearest bound on a range error, 0 on a syntax error), in a multi-fraction request
+	for _, s := range []string{"9223372036854775808", "18446744073709551615", "99999999999999999999", "-9223372036854775809", "abc", "", "12x", "1024"} {
+		out = append(out, mk(map[string]string{"gpu-fraction": "0.5", "gpu-memory": s, "gpu-fraction-num-devices": "3"}, true))
+		out = append(out, mk(map[string]string{"gpu-fraction": "0.5", "gpu-memory": s}, true))
+	}
 	// a whole-GPU limit that sits only on an init container / only on a sidecar
 	one := int64(1)
 	for _, ann := range []map[string]string{{"gpu-fraction": "0.5"}, {"gpu-memory": "1024"}, {"gpu-fraction": "0.5", "gpu-fraction-num-devices": "2"}} {
